@@ -220,7 +220,8 @@ fn check_resource_consumption(context: &CheckerContext) -> GenericResult<()> {
             GenericError::from(format!("cannot find resource '{resource_id}' in list of available resources"))
         })?;
 
-        if consumed > available {
+        // NOTE: with multiple dimensions, loads are not comparable when only some of them do not fit
+        if !available.can_fit(&consumed) {
             Err(GenericError::from(format!(
                 "consumed more resource '{resource_id}' than available: {consumed} vs {available}"
             )))
